@@ -63,6 +63,10 @@ def raises(exc, when=True):
     raise RuntimeError("raises() is interpreted, never called")
 
 
+def may_raise(exc):
+    raise RuntimeError("may_raise() is interpreted, never called")
+
+
 def pure():
     pass
 
